@@ -27,8 +27,50 @@ def build(ctx):
     return cases
 
 
+NUMS = [1, 2, 3, True, False, 1.0, 2.0, 3.0, 1e308, 1.5, 10 ** 400, 10 ** 400 + 1, 2 ** 53, 2.0 ** 53, 2 ** 53 + 1, 2 ** 63, 0, -1, 0.0,
+        float("nan"), float("inf"), float("-inf"), "1", None]
+FLAGS = [False, True, 0, 1, None, "", 0.0, 1.0, 2, [], "x", -1]
+
+
+def pair_cases(ctx):
+    """two numeric positions varied together (versions, thresholds, the gpg flag): arithmetic between
+    unchecked or differently typed numbers is where overflow / assertion failures hide"""
+    import itertools
+    import mdgen as M
+    import envgen as E
+    from gen import PUBHEX
+    out = []
+
+    def root(ver, th, signers=(0, 1)):
+        return M.envelope(M.md("root", ver, {"root": {"pubkeys": [PUBHEX[0], PUBHEX[1]], "threshold": th},
+                                             "key_mgr": M.delegation((2,), 1)}), signers)
+    for a, b in itertools.product(NUMS, NUMS):
+        try:
+            out.append(("verify_root", (root(a, 1), root(b, 1)), "versions"))
+            out.append(("verify_root", (root(1, a), root(2, b)), "thresholds"))
+        except (TypeError, ValueError, OverflowError):
+            pass
+    P = {"a": 1}
+    for mode in (False, True):
+        mk = E.gpg_sig if mode else E.raw_sig
+        env = {"signatures": {PUBHEX[0]: mk(0, P), PUBHEX[1]: mk(1, P), PUBHEX[2]: E.raw_sig(3, P), "junk": 5}, "signed": P}
+        for t, g in itertools.product(NUMS, FLAGS):
+            out.append(("verify_signable", (env, [PUBHEX[0], PUBHEX[1], PUBHEX[2]], t, g), "threshold x flag"))
+    T = root(1, 1)
+    for th, g in itertools.product(NUMS, FLAGS):
+        try:
+            Tt = M.envelope(M.md("root", 1, {"key_mgr": {"pubkeys": [PUBHEX[2]], "threshold": th}}), (0,))
+            for mode in ("raw", "gpg"):
+                U = M.envelope(M.md("key_mgr", 1, {}), (2,), mode=mode)
+                out.append(("verify_delegation", ("key_mgr", U, Tt, g), "threshold x flag"))
+        except (TypeError, ValueError, OverflowError):
+            pass
+    return [{"w": wire.case(fn, *a), "meta": {"fn": fn, "tag": tag}} for fn, a, tag in out]
+
+
 def run(ctx):
     cases = build(ctx)
+    pcases = pair_cases(ctx)
 
     def rel(c, io, mo):
         ic, mc = core.impl_class(io), core.model_class(mo)
@@ -55,5 +97,13 @@ def run(ctx):
     core.run_stream(ctx, core.Stream("every public validator/verifier: valid call, then every JSON path of every argument x %d substitute values, deletion, extra field, duplication"
                                      % len(interesting_values()), cases, rel, oracle,
                                      nontrivial=lambda c, i, m: c["meta"]["tag"] != "valid"))
+
+    def rel_pair(c, io, mo):
+        ic, mc = core.impl_class(io), core.model_class(mo)
+        if (ic == "accept") != (mc == "accept"):
+            return "accept/reject differs: implementation %s, model %s" % (ic, mc)
+        return None
+    core.run_stream(ctx, core.Stream("two numeric positions varied together: versions x versions, thresholds x thresholds, threshold x gpg flag (%d numbers incl. 10^400, 1e308, 2^53, NaN, +-Infinity, bools)" % len(NUMS),
+                                     pcases, rel_pair, oracle, nontrivial=lambda c, i, m: True))
     ctx.assumptions = ["values with user-defined dunder methods, RecursionError beyond the depth bound and MemoryError are outside the universe",
                        "struct.error needs OpenPGP headers of 4 GiB or more (C13_struct_error_needs_4GiB); not generated"]
